@@ -205,6 +205,12 @@ func c13MadeInTheTemplate(b *core.B) {
 	for _, t := range []string{
 		`<%= "" + [range(1, 2)] %>`, `<%= "x" + [until(3), between(1, 4)] %>`, `<%= inspect([range(1, 2)]) %>`, `<%= debug({"r": until(3)}) %>`,
 		`<%= truncate([until(2)], {}) %>`, `<% let it = range(1, 3) %><%= for (x) in [it] { %><%= "" + [x] %><% } %>`, `<%= inspect([groupBy(2, [1, 2, 3])]) %>`, `<%= "" + [fn(a) { return a }] == "" %>`,
+		// a function value is not a door to the parsed template: nothing a template does with it may change (or show
+		// the addresses of) the tree that the next execution runs
+		"<% let f = fn() { %>A<% \"x\" %>B<% } %><%= f() %>|<% f.Block.Statements[0] = f.Block.Statements[2] %><%= f() %>",
+		`<% let f = fn(a, b) { return a } %><%= f(1, 2) %>|<% f.Parameters[0] = f.Parameters[1] %><%= f(1, 2) %>`,
+		`<% let f = fn() { if (false) { return 1 } else if (true) { return 2 } } %><%= inspect(f.Block.Statements[0].Expression.ElseIf) %>`,
+		`<% let f = fn(a) { return a } %><% let g = fn(a) { return 5 } %><% f.Block = g.Block %><%= f(1) %>`,
 	} {
 		if !b.Begin("made in the template: " + t) {
 			continue
@@ -219,6 +225,11 @@ func c13MadeInTheTemplate(b *core.B) {
 		pan := core.Guard(func() {
 			for i := 0; i < 4; i++ {
 				s, err := tm.Exec(plush.NewContext())
+				outs = append(outs, fmt.Sprintf("%q %v", s, err))
+			}
+			// ... and a fresh parse of the same text
+			if t2, err := plush.NewTemplate(t); err == nil {
+				s, err := t2.Exec(plush.NewContext())
 				outs = append(outs, fmt.Sprintf("%q %v", s, err))
 			}
 		})
